@@ -41,7 +41,7 @@ ADV = ['bad_magic', 'len_over', 'len_zero', 'garbage', 'pre_hello_getblocks', 'p
        'bad_tx_payload', 'bad_block_payload', 'huge_vlq', 'inv_known', 'getblocks_unknown', 'close_mid_frame', 'instate_invalid_relay',
        'instate_invalid_unrequested_response', 'instate_invalid_unrequested_response', 'announced_then_served_wrong_height',
        'announced_then_served_wrong_height', 'reset_in_accept_queue']
-STRUCT_BLOCKS = ['no_txs', 'dup_tx', 'wrong_merkle', 'merkle_dup_last', 'reward_two_inputs', 'reward_real_ref', 'two_rewards',
+STRUCT_BLOCKS = ['no_txs', 'dup_tx', 'wrong_merkle', 'merkle_dup_last', 'reward_two_inputs', 'reward_real_ref', 'reward_null_ref_index', 'two_rewards',
                  'reward_not_first', 'reward_height_differs', 'out_zero', 'null_ref', 'placeholder_sig', 'dup_ref_in_tx',
                  'dup_ref_in_block', 'outs_sum_over_max']
 STRUCT_TX = ['no_outputs', 'out_zero', 'over_max', 'dup_ref', 'null_ref', 'placeholder', 'coinbasedata_sig', 'no_inputs']
